@@ -145,6 +145,8 @@ type Sched struct {
 	stepLimit bool
 	trace     []string
 	done      bool
+	atomic    int
+	idleAcc   time.Duration
 }
 
 var cur atomic.Pointer[Sched]
@@ -342,7 +344,23 @@ func (s *Sched) yield(g *G, site string) {
 // PointLog, when non-nil, records every scheduling point passed (debugging).
 var PointLog *[]string
 
+// Atomic runs f without optional yields and without consuming scheduler
+// randomness (debugging aid: probes that must not perturb the schedule).
+func Atomic(f func()) {
+	s := cur.Load()
+	if s == nil {
+		f()
+		return
+	}
+	s.atomic++
+	defer func() { s.atomic-- }()
+	f()
+}
+
 func (s *Sched) point(g *G, site string) {
+	if s.atomic > 0 {
+		return
+	}
 	s.steps++
 	if PointLog != nil {
 		*PointLog = append(*PointLog, g.Name+"@"+site)
@@ -454,6 +472,7 @@ func (s *Sched) ready(g *G) {
 func Progress() {
 	if s := cur.Load(); s != nil {
 		s.progress = time.Now()
+		s.idleAcc = 0
 	}
 }
 
@@ -643,7 +662,9 @@ func (s *Sched) loop() {
 			return
 		}
 		now := time.Now()
-		if now.Sub(s.progress) > s.cfg.HangAfter {
+		// only time during which nothing was runnable counts (stall
+		// decisions advance the clock while work is pending)
+		if s.idleAcc > s.cfg.HangAfter && now.Sub(s.progress) > s.cfg.HangAfter {
 			s.hang = &HangReport{SimTime: now.Sub(s.start), Goroutines: s.snapshot()}
 			s.mu.Unlock()
 			return
@@ -656,6 +677,7 @@ func (s *Sched) loop() {
 			}
 			s.mu.Unlock()
 			time.Sleep(idleQ)
+			s.idleAcc += idleQ
 			if idleQ < 30*time.Second {
 				idleQ *= 2
 			}
